@@ -46,7 +46,7 @@ def run(c, replay):
     mask = S.mask("MSG_ALLOC", "MSG_FREE", "PROC", "ANTI", "UNDO")
     # ---- (1) cooperatively scheduled runs: exact replay of the flag handshake
     nsched = 12 if c.tier == "quick" else 250
-    steps = insts = ok = 0
+    steps = insts = ok = retries = 0
     corr_bad = None
     for k in range(nsched):
         p = progen.gen_program(r, lps=r.choice([2, 3, 4, 6]), target=r.choice([15, 40, 80]), zero_ts=(k % 3 == 0))
@@ -56,8 +56,14 @@ def run(c, replay):
         th = r.choice([2, 2, 3, 4])
         seed, stride = r.below(1 << 30) + 1, r.choice([1, 2, 5, 20, 100])
         tf = os.path.join(ctx["sd"], "c06trace%d.txt" % k)
-        res = S.run_sim(ctx["exe"], pf, threads=th, ckpt=r.choice([1, 2, 4]), gvt=0, trace_file=tf, trace_mask=mask,
+        ckk = r.choice([1, 2, 4])
+        res = S.run_sim(ctx["exe"], pf, threads=th, ckpt=ckk, gvt=0, trace_file=tf, trace_mask=mask,
                         sched="%d,%d" % (seed, stride), watchdog=40, timeout=70)
+        if not res.returned and not res.sanitizer and retries < 3:
+            retries += 1
+            # a scheduled run is deterministic and finite: on a loaded machine it is only slow, so it gets one more, longer, chance
+            res = S.run_sim(ctx["exe"], pf, threads=th, ckpt=ckk, gvt=0, trace_file=tf, trace_mask=mask,
+                            sched="%d,%d" % (seed, stride), watchdog=200, timeout=260)
         tr = S.read_trace(tf)
         if os.path.exists(tf):
             os.remove(tf)
